@@ -243,6 +243,13 @@ def wellformed(rng):
         return e, layout(rng, toks)
 
 
+def many_candidates(n):
+    """a well-formed file with n candidates whose ballots rank the last ones"""
+    lines = ['%d 2' % n, '3 %d 1 0' % n, '2 1 %d %d 0' % (n, n - 1), '1 %d 0' % (n - 1), '0']
+    lines += ['"c%d"' % i for i in range(1, n + 1)] + ['"t"']
+    return '\n'.join(lines) + '\n'
+
+
 def near_valid(rng):
     """a well-formed election with exactly one acceptance condition broken; every such file must be rejected"""
     while True:
@@ -464,6 +471,10 @@ def C16(run):
     for _ in range(budget(run, 30000, 800000)):
         texts.append((malformed(rng, corpus), False))
     texts += [('', False), ('2 1 0', False), ('2 1\n-5\n2 1 0\n1 2 0\n0\n"a" "b" "t"\n', False)]
+    # candidate counts at the boundaries of the ranking array's element type (ids 1..n must fit: 255 / 256 / 257 candidates;
+    # thorough also 65535 / 65536), with ballots that rank the last candidate
+    for n in ((255, 256, 257) if run.tier == 'quick' else (255, 256, 257, 65535, 65536)):
+        texts.append((many_candidates(n), False))
     out, stats = parse_campaign(run, texts)
     nfail = ncorr = 0
     firstc = None
@@ -572,8 +583,21 @@ def opts_impl(item):
         line = 'OK eff:%s cmd:%s file:%s default:%s force:%s unused:%s over:%s arith:%s' % (
             sd(r['options']), sd(r['cmd']), sd(r['file_options']), sd(r['default']), sd(r['force']),
             ','.join(hx(k) for k in E.options.unused()), ','.join(hx(k) for k in E.options.overrides()), a)
-        # the report names the unused and the overridden options (header lines), exactly those the option object lists
+        # getopt() - the value the count actually uses - follows the same precedence as the layers the record reports
         rep_status = 'skip'
+        for k in set(r['cmd']) | set(r['file_options']) | set(r['default']) | set(r['force']):
+            want = r['force'][k] if k in r['force'] else r['cmd'][k] if k in r['cmd'] else \
+                r['file_options'][k] if k in r['file_options'] else r['default'].get(k)
+            got = E.options.getopt(k)
+            if got != want or type(got) is not type(want):
+                return line + '\tREP:BAD getopt(%r) returns %r; forced > caller > ballot file > default gives %r (layers force=%r cmd=%r file=%r default=%r)' % (
+                    k, got, want, r['force'].get(k), r['cmd'].get(k), r['file_options'].get(k), r['default'].get(k))
+        # the arithmetic the count runs with is the one the effective options name
+        eff = r['options']
+        if eff.get('arithmetic') in ('fixed', 'integer', 'guarded') and 'precision' in eff and str(eff['precision']).isdigit():
+            if int(eff['precision']) != V.precision:
+                return line + '\tREP:BAD the count runs with precision %r, the effective options say %r' % (V.precision, eff['precision'])
+        # the report names the unused and the overridden options (header lines), exactly those the option object lists
         try:
             import io, contextlib
             with contextlib.redirect_stdout(io.StringIO()):
@@ -733,7 +757,7 @@ def C17(run):
             elif rep_status.startswith('BAD'):
                 nfail += 1
                 if nfail <= 3:
-                    run.violation(dict(kind='implementation', what='the report does not name the unused / overridden options: ' + rep_status[4:],
+                    run.violation(dict(kind='implementation', what='options as used / as reported disagree with the precedence law: ' + rep_status[4:],
                                        cmd=c, file=f))
         stats[i.split(' ')[0] + (' ' + i.split(' ')[1] if i.startswith('CRASH') else '')] += 1
         if i.startswith('OK'):
